@@ -91,6 +91,7 @@ func c12Case(r *evid.Run, tier string, idx int, g *rng.R) {
 		xast.Rel(xast.S("ancestor-or-self", xast.NodeT()), xast.S("child", xast.Test{Kind: xast.TPI})),
 		xast.Rel(xast.S("ancestor-or-self", xast.NodeT()), xast.S("child", xast.Test{Kind: xast.TComment})),
 		xast.Var{Local: "rev"},
+		xast.Var{Local: "shuf"},
 	)
 	var pool []*adoc.Node
 	for _, n := range d.All {
@@ -104,8 +105,10 @@ func c12Case(r *evid.Run, tier string, idx int, g *rng.R) {
 	for i := range fwd {
 		rev[len(fwd)-1-i] = fwd[i]
 	}
-	w.env.Vars = map[refeval.Name]refeval.Value{{Local: "rev"}: vset, {Local: "s"}: "str", {Local: "n"}: 1.0, {Local: "b"}: true}
-	binds := []xsel.ContextApply{xsel.WithVariable("rev", rev), xsel.WithVariable("s", xsel.String("str")), xsel.WithVariable("n", xsel.Number(1)), xsel.WithVariable("b", xsel.Bool(true))}
+	shuf := append(xsel.NodeSet{}, fwd...)
+	rng.Shuffle(g, shuf)
+	w.env.Vars = map[refeval.Name]refeval.Value{{Local: "rev"}: vset, {Local: "shuf"}: vset, {Local: "s"}: "str", {Local: "n"}: 1.0, {Local: "b"}: true}
+	binds := []xsel.ContextApply{xsel.WithVariable("rev", rev), xsel.WithVariable("shuf", shuf), xsel.WithVariable("s", xsel.String("str")), xsel.WithVariable("n", xsel.Number(1)), xsel.WithVariable("b", xsel.Bool(true))}
 	nctx := 6
 	if tier == "thorough" {
 		nctx = 12
